@@ -18,6 +18,7 @@ One operation per input line, one answer per output line.  Arguments are hex-enc
 -/
 import SpdxVerif.Model.Cost
 import SpdxVerif.Model.GoShaped
+import SpdxVerif.Model.GoScan
 open Spdx
 
 def hexVal (c : Char) : Nat :=
@@ -131,10 +132,15 @@ def handle (line : String) : String :=
     | .ok n => "ok " ++ showNode n
     | .error _ => "err"
   | ["Q", e] =>
-    match G.parse (unhex e) with
-    | .ok (some _) => "ok"
-    | .ok none => "err"
-    | .panic => "panic"
+    -- the Go-shaped pipeline (scanner with buffer rewrite and look-behind, token cursor, parser); it must also agree with
+    -- the suffix-based model that the theorems are about
+    let b := unhex e
+    match G.parseG b, parse b with
+    | .panic, _ => "panic"
+    | .ok (some n), .ok n' => if n = n' then "ok" else "MISMATCH-tree"
+    | .ok none, .error _ => "err"
+    | .ok (some _), .error _ => "MISMATCH-G-accepts"
+    | .ok none, .ok _ => "MISMATCH-G-rejects"
   | ["K", e] =>
     let b := unhex e
     let toks := match scan b with | .ok ts => ts.length | .error _ => 0
